@@ -85,6 +85,8 @@ def gen(rng, n):
         b = lay.scenario([copy.deepcopy(step)], cwd='/', extra=scen.canary() + nodes_good)
         pairs.append((a, b))
         metas.append({'td': td, 'good': good, 'kinds': kinds, 'cmd': cmd})
+        # what a replay needs to judge the same way: the twin scenario (same trash without the malformed neighbours) and the meta
+        a['judge_meta'] = {'meta': metas[-1], 'twin_tree': b['tree']}
     return pairs, metas
 
 
@@ -151,6 +153,16 @@ def replay(run, payload):
         return
     ra = sandbox.execute(a)
     o = ra['steps'][0]
+    jm = a.get('judge_meta')
+    if jm:
+        b = {k: v for k, v in a.items() if k != 'judge_meta'}
+        b = copy.deepcopy(b)
+        b['tree'] = jm['twin_tree']
+        rb = sandbox.execute(b)
+        if ra.get('steps') and rb.get('steps'):
+            print(a['steps'][0]['cmd'], a['steps'][0]['argv'], 'exit', o['exit'], 'exc', o['exc'], '| without the malformed neighbours: exit', rb['steps'][0]['exit'])
+            judge(run, a, b, jm['meta'], ra, rb, section='replay')
+        return
     print(a['steps'][0]['cmd'], a['steps'][0]['argv'], 'exit', o['exit'], 'exc', o['exc'])
     print(' stdout:', esc(o['stdout'][:600]))
     print(' stderr:', esc(o['stderr'][:600]))
